@@ -58,7 +58,9 @@ impl Ctx {
         if let Some(k) = self.only_case {
             return if k < n { vec![k] } else { vec![] };
         }
-        (0..n).filter(|k| k % self.nshards == self.shard).collect()
+        // diagonal assignment: case lists with a period that is a multiple of the shard count
+        // (e.g. 48 first actions x configs) are still spread evenly over the shards
+        (0..n).filter(|k| (k + k / self.nshards) % self.nshards == self.shard).collect()
     }
     /// independent generator for (sub-workload, case)
     pub fn rng(&self, sub: &str, case: u64) -> Rng {
